@@ -65,6 +65,7 @@ type ClientConn struct {
 	closing       bool
 	closingMu     *sync.RWMutex
 	codec         frame.RawCodec
+	version       primitive.ProtocolVersion // Set by the handshake
 }
 
 // ConnectClient creates a new connection to an endpoint within a downstream cluster using TLS if specified.
@@ -86,6 +87,12 @@ func ConnectClient(ctx context.Context, endpoint Endpoint, config ClientConnConf
 }
 
 func (c *ClientConn) Handshake(ctx context.Context, version primitive.ProtocolVersion, auth Authenticator, startupKeysAndValues ...string) (primitive.ProtocolVersion, error) {
+	version, err := c.handshake(ctx, version, auth, startupKeysAndValues...)
+	c.version = version
+	return version, err
+}
+
+func (c *ClientConn) handshake(ctx context.Context, version primitive.ProtocolVersion, auth Authenticator, startupKeysAndValues ...string) (primitive.ProtocolVersion, error) {
 	if len(startupKeysAndValues)%2 != 0 {
 		return version, errors.New("invalid startup key/value pairs")
 	}
@@ -324,10 +331,14 @@ func (c *ClientConn) maybePrepareAndExecute(request Request, raw *frame.RawFrame
 	if msg, ok := frm.Body.Message.(*message.Unprepared); ok {
 		id := hex.EncodeToString(msg.Id)
 		if prepare, ok := c.preparedCache.Load(id); ok {
-			err = c.Send(&prepareRequest{
-				prepare:     prepare.PreparedFrame,
-				origRequest: request,
-			})
+			var prepareFrame *frame.RawFrame
+			prepareFrame, err = c.adaptPrepareFrame(prepare.PreparedFrame)
+			if err == nil {
+				err = c.Send(&prepareRequest{
+					prepare:     prepareFrame,
+					origRequest: request,
+				})
+			}
 			if err != nil {
 				c.logger.Error("failed to prepare query after receiving an unprepared error response",
 					zap.String("host", c.conn.RemoteAddr().String()),
@@ -365,11 +376,48 @@ func (c *ClientConn) maybeCachePrepared(request Request, raw *frame.RawFrame) {
 				zap.Stringer("response", msg))
 			return
 		}
+		prepareFrame, err := c.uncompressFrame(request.Frame().(*frame.RawFrame))
+		if err != nil {
+			c.logger.Error("failed to decode prepare request; unable to update prepared cache", zap.Error(err))
+			return
+		}
 		c.preparedCache.Store(hex.EncodeToString(msg.PreparedQueryId),
 			&PreparedEntry{
-				request.Frame().(*frame.RawFrame), // Store frame so we can re-prepare
+				prepareFrame, // Store frame so we can re-prepare
 			})
 	}
+}
+
+// uncompressFrame returns a frame with the same content that is not compressed. The cached prepare frame is used on
+// the connections of other sessions which might not have negotiated the same (or any) compression.
+func (c *ClientConn) uncompressFrame(raw *frame.RawFrame) (*frame.RawFrame, error) {
+	if !raw.Header.Flags.Contains(primitive.HeaderFlagCompressed) {
+		return raw, nil
+	}
+	header := *raw.Header // The request's own frame is left as it is
+	frm, err := c.codec.ConvertFromRawFrame(&frame.RawFrame{Header: &header, Body: raw.Body})
+	if err != nil {
+		return nil, err
+	}
+	frm.Header.Flags = frm.Header.Flags.Remove(primitive.HeaderFlagCompressed)
+	return c.codec.ConvertToRawFrame(frm)
+}
+
+// adaptPrepareFrame returns a copy of a cached prepare frame that can be sent on this connection. The frame was cached
+// by a connection that might use a different protocol version. It's copied because sending a frame updates its header
+// and several connections can be preparing the same statement at the same time.
+func (c *ClientConn) adaptPrepareFrame(cached *frame.RawFrame) (*frame.RawFrame, error) {
+	header := *cached.Header
+	prepare := &frame.RawFrame{Header: &header, Body: cached.Body}
+	if header.Version == c.version {
+		return prepare, nil
+	}
+	frm, err := c.codec.ConvertFromRawFrame(prepare)
+	if err != nil {
+		return nil, err
+	}
+	frm.Header.Version = c.version
+	return c.codec.ConvertToRawFrame(frm)
 }
 
 func (c *ClientConn) Closing(err error) {
